@@ -78,8 +78,13 @@ class Run:
         self.dircaps = 0
         self.broken = False        # a call raised: the history ends there
 
+    # what the files are called on disk.  In every third history f1 and f2 are siblings whose names differ only in their
+    # Unicode normalisation form (distinct files on this filesystem, e.g. a tree copied from macOS): the database must
+    # keep them apart like any two files
+    disk_names = {}
+
     def apath(self, name):
-        return os.path.join(self.fdir, name)
+        return os.path.join(self.fdir, self.disk_names.get(name, name))
 
     # -- the local files
     def set_file(self, name, size=None, mtime=None, ctime=None, content=None):
@@ -117,7 +122,9 @@ class Run:
         c = con.cursor()
         files = []
         for (path, size, mtime, ctime, fileid) in c.execute("SELECT path,size,mtime,ctime,fileid FROM local_files"):
-            files.append({"path": os.path.relpath(path, self.fdir), "size": size, "mtime": mtime, "ctime": ctime, "fileid": fileid})
+            rel = os.path.relpath(path, self.fdir)
+            rel = {v: k for k, v in self.disk_names.items()}.get(rel, rel)
+            files.append({"path": rel, "size": size, "mtime": mtime, "ctime": ctime, "fileid": fileid})
         caps = [{"id": i, "cap": self.s(cap)} for (i, cap) in c.execute("SELECT fileid,filecap FROM caps")]
         lu = [{"id": i, "up": self.d(u), "chk": self.d(k)} for (i, u, k) in c.execute("SELECT fileid,last_uploaded,last_checked FROM last_upload")]
         dirs = []
@@ -219,8 +226,10 @@ class Run:
         self.record({"ev": "Reopen"})
 
 
-def history(rng, workdir, nevents):
+def history(rng, workdir, nevents, unicode_siblings=False):
     r = Run(rng, workdir)
+    if unicode_siblings:
+        r.disk_names = {"f1": "caf\u00e9.txt", "f2": "cafe\u0301.txt"}
     os.chdir(r.dir)
     for n in r.names[:2]:
         r.set_file(n, size=rng.randint(0, 2), mtime=1000 + rng.randint(0, 1), ctime=2000 + rng.randint(0, 1), content=rng.randint(0, 2))
@@ -313,7 +322,7 @@ def main():
     a.out = os.path.abspath(a.out)
     rng = random.Random(7919 * a.seed + 42)
     work = tempfile.mkdtemp(prefix="bdbdrv", dir=os.getcwd())
-    traces = [history(rng, work, a.events) for i in range(a.n)]
+    traces = [history(rng, work, a.events, unicode_siblings=(i % 3 == 1)) for i in range(a.n)]
     shutil.rmtree(work, ignore_errors=True)
     json.dump(traces, open(a.out, "w"))
 
